@@ -25,9 +25,15 @@ Known defects of the pinned tree (generator avoids their triggers; witnesses in 
   comp_scope       a list comprehension that follows a sibling lambda/def/genexp in its function (py>=3.12)
   comp_var         the variable of a list comprehension is also read as a global in the formula (py>=3.12)
   ifexp_order      `a if c else b` with function scopes in both a and c (libcst vs symtable order)
-  builtin_child    a child space / ItemSpace parameter named like a built-in is not prefixed
   self_local       a local variable / parameter named `self`
   (modelx itself rejects global names in default values of cells parameters: never generated)
+Repaired in /repo (the shapes are generated; witnesses stay in corpus/C15, reproducers in corpus/fixed/C15_<key>.py):
+  builtin_child    a child space / ItemSpace parameter named like a built-in was not prefixed: child spaces ord / vars and
+                   parameters id abs pow len hash sorted are generated.  The exporter now hands references + child spaces +
+                   parameters (own and enclosing) + cells to FormulaTransformer: the dump mirrors that list ("xtop"); Run.v
+                   wants s_top inside the namespace, so the static space of a parametrised tree gets the list without the
+                   parameters ("top"); queries on such a space are left to (P) when the absent parameter is a built-in
+                   that Run.v py_fn does not evaluate (e_case)
 """
 import os, json, glob, builtins, hashlib
 import fw
@@ -235,11 +241,19 @@ def coq_canon(v):
     return None
 
 
+COQ_BUILTINS = ["sum", "len", "abs", "max", "min", "range", "sorted", "list"]      # Export/Run.v py_fn_names
+
+
 def e_case(case, res):
     """Gallina term (tables, queries) for one case, number of queries, or None"""
     d = res.get("dump")
     if not d:
         return None, 0
+    # a static space of a parametrised tree has no value for the parameters: one named like a built-in IS the built-in
+    # there (in the model and, by a class attribute, in the package).  Run.v evaluates the built-ins of py_fn only, so
+    # queries on such a space whose absent parameter is another built-in (id, pow, hash) are left to (P)
+    beyond = {sid for sid, sp in enumerate(d["spaces"])
+              if any(k in PY_BUILTINS and k not in COQ_BUILTINS for k in sp["absent"])}
     tbls = []
     for sp in d["spaces"]:
         ns = G._cl(["(%s, %s)" % (G._cs(n), coq_dval(v)) for n, v in sp["ns"]])
@@ -255,7 +269,7 @@ def e_case(case, res):
     for qi, q in enumerate(case["queries"]):
         sid = d["qsid"][qi]
         ma = res["vals"]["ma"][qi]
-        if sid is None or ma[0] == "err":
+        if sid is None or ma[0] == "err" or sid in beyond:
             continue
         if q["cell"] in case.get("probes", ()):
             continue            # probe of literal-subclass references: strings / enum members are not Gallina values, (P) only
@@ -373,9 +387,10 @@ def run(tier, seed, rng):
         obs_tops = {tuple(ob.get("top", [])) for ob in r.get("obs", [])}
         if not r.get("export_err"):
             for sp in r["dump"]["spaces"]:
-                if tuple(sp["top"]) not in obs_tops and (sp["top"] or sp["cells"]):
+                # xtop: references, child spaces, ItemSpace parameters (own and enclosing) and cells of the static space
+                if tuple(sp["xtop"]) not in obs_tops and (sp["xtop"] or sp["cells"]):
                     out.tie_mismatches.append({"case": c["id"], "model": c, "detail": "module-level names handed to FormulaTransformer for %s differ from "
-                                               "references + cells of the space: %r not among %r" % (sp["repr"], sp["top"], sorted(obs_tops))})
+                                               "references + child spaces + parameters + cells of the space: %r not among %r" % (sp["repr"], sp["xtop"], sorted(obs_tops))})
                     break
         t, k2 = e_case(c, r)
         if t:
@@ -438,7 +453,11 @@ def run(tier, seed, rng):
                         "spaces": {"total": sum(len(c["spaces"]) for c in cases),
                                    "derived": sum(1 for c in cases for s in c["spaces"] if s["bases"]),
                                    "parametrised": sum(1 for c in cases for s in c["spaces"] if s.get("params") is not None),
-                                   "nested": sum(1 for c in cases for s in c["spaces"] if s["parent"] is not None)},
+                                   "nested": sum(1 for c in cases for s in c["spaces"] if s["parent"] is not None),
+                                   "child_named_like_builtin": sum(1 for c in cases for s in c["spaces"]
+                                                                   if s["parent"] is not None and s["name"] in PY_BUILTINS),
+                                   "parameter_named_like_builtin": sum(1 for c in cases for s in c["spaces"]
+                                                                       if any(p[0] in PY_BUILTINS for p in (s.get("params") or [])))},
                         "literal_subclass_refs": {
                             "models_with_such_refs": sum(1 for c in cases if c.get("lit_refs")),
                             "refs": sum(c.get("lit_refs", 0) for c in cases),
